@@ -1,5 +1,4 @@
 import FixModel.Timer
-import FixModel.Generated.Facts
 /-!
 # C08 — a logged-on session never stays silent longer than the heartbeat interval
 
@@ -66,17 +65,6 @@ theorem C08_restart (T P : Nat) (s : TSt) (τ : Nat) (h : (tstep T P s .poll).2 
   split at h
   · simp at h; subst h; simp [*]
   · cases h
-
-/-- the constants the model uses are the source's (regenerated, in canonical form: locals inlined,
-    receiver `$r`, parameter `$0`): polling period = timeout / 10, the ticker runs at that period, the
-    outbound timer is built from HeartBtInt seconds, and the session builds exactly two timers -/
-theorem C08_consts :
-    Generated.consts.lookup "utils.frequency" = some "10"
-    ∧ Generated.formulas.contains ("field utils.Timer.checkingTimeout", "$0 / frequency") = true
-    ∧ Generated.formulas.contains ("field utils.Timer.timeout", "$0") = true
-    ∧ (Generated.formulas.filter (·.1 == "ticker-period")) = [("ticker-period", "$r.checkingTimeout")]
-    ∧ Generated.formulas.contains ("timer-arg", "time.Second * time.Duration($r.LogonSettings.HeartBtInt)") = true
-    ∧ (Generated.formulas.filter (·.1 == "timer-arg")).length = 2 := by decide
 
 /-- non-vacuity: T = 10, P = 1, a send at time 4, then polls: the heartbeat comes at 14 -/
 example : (trun 10 1 { start := 0, last := 0 } ([.poll, .poll, .poll, .poll, .refresh 4] ++ List.replicate 10 .poll)).2 = [14] := by decide
